@@ -189,4 +189,38 @@ where
     | .quo => if q.num = 0 then .crash else .ok (.flt (p.div q))
     | _ => .crash
 
+/-- byte-wise order of strings (Go's `<` on strings) -/
+def bytesLt : List Nat → List Nat → Bool
+  | [], [] => false
+  | [], _ :: _ => true
+  | _ :: _, [] => false
+  | a :: as, b :: bs => if a < b then true else if a > b then false else bytesLt as bs
+
+/-- `constant.Compare(x, tok, y)`: `match` brings numeric operands to the larger kind; Unknown compares false;
+    operands of different non-numeric kinds, or an ordering of booleans, are a panic of go/constant -/
+def cCompare (tok : Tok) (x y : CV) : Res Bool :=
+  let ord (lt eq : Bool) : Res Bool :=
+    match tok with
+    | .eql => .ok eq
+    | .neq => .ok (!eq)
+    | .lss => .ok lt
+    | .leq => .ok (lt || eq)
+    | .gtr => .ok (!(lt || eq))
+    | .geq => .ok (!lt)
+    | _ => .crash
+  match x, y with
+  | .unknown, _ => .ok false
+  | _, .unknown => .ok false
+  | .int a, .int b => ord (decide (a < b)) (decide (a = b))
+  | .int a, .flt q => ord ((Q.ofInt a).lt q) (Q.ofInt a == q)
+  | .flt p, .int b => ord (p.lt (Q.ofInt b)) (p == Q.ofInt b)
+  | .flt p, .flt q => ord (p.lt q) (p == q)
+  | .str s, .str t => ord (bytesLt s t) (s == t)
+  | .bool a, .bool b =>
+    (match tok with
+     | .eql => .ok (a == b)
+     | .neq => .ok (a != b)
+     | _ => .crash)
+  | _, _ => .crash
+
 end YaegiVerif.Const
